@@ -34,6 +34,10 @@ claim("C15", "fault_enumeration",
   "Histories are sampled by seed; the crash points of each write in them are enumerated: all prefixes of the recorded physical writes, the next write torn at every 512-byte boundary (quick tier: at most 64 boundaries per write, nearest both ends plus samples; thorough: all) and at byte offsets 1,2,3,len-1,random. Oracle per image: Load succeeds, every chunk other than the one being written reads back its last written bytes, absent chunks stay absent, the independent parser finds no overlap among the other entries. Nothing is asserted about the interrupted chunk.",
   "Crash model = the process stops after a prefix of its physical writes (no reordering/lost fsync), as the statement says. Histories continue after a recovery only from images whose interrupted header entry is whole (zero/old/new); what later writes do with a torn 4-byte entry is outside the statement.",
   "DESIGN.md 5 C15")
+claim("C19", "exploration",
+  "deterministic simulation of a whole world: real bot client(s) (main task, woven reader/writer goroutines, sender task) and the real server gate as tasks under the seeded scheduler, one simulated link per bot with segmentation/latency/stalls/back-pressure, simulator-owned pools and queues; reference dispatch model; quiescence assertions for bundles; bounded liveness",
+  "Seeded worlds of 1-3 bots joining one server: thresholds, names, queue kinds, 0-200 play packets each way with sizes across the threshold, handler tables with tied priorities and random registration batches (occasionally > 12 handlers), bundle layouts incl. empty and back-to-back, injected handler failure, refused players, status ping at start/concurrently/after joining. Oracles: join completes on both sides (bounded steps), identity agreement (name, offline UUID, protocol), intact ordered traffic both ways, handler invocation log equals the reference order, bundles not dispatched before the closing delimiter (event stamps + withheld-delimiter quiescence), error propagation, status JSON vs the handler values and the pong echo on the wire.",
+  "Offline mode only; ConfigHandler/GamePlay/LoginChecker/MCDialer are harness stubs; KeepAlive, online-mode login and real TCP are not run. Receive windows are kept >= 512 bytes so that the stubs' own configuration traffic cannot write-write deadlock. Packet ids sent to the bot stay inside the handler table.",
+  "DESIGN.md 5 C19")
 PENDING.update({
- "C19": "claimed in DESIGN.md; check under construction (not yet registered)",
 })
